@@ -423,3 +423,28 @@ Definition ids_of (r : list (list mol) * list mol * bool) : list (list Z) := map
 (* a start-sorted library on one contig whose fragments are all shorter than cache_size = 40 but one is longer
    than cache_size/2 (outside the inequality of the schedule theorems) *)
 Definition ex_gap : list frag := [mkF 0 0 100 110 [65]; mkF 1 0 105 136 [67]; mkF 2 0 106 110 [65]].
+
+(* ------------------------------------------------------------------ several passes over one iterator object *)
+Lemma iter_clears : iter_clears_at_start = true.
+Proof. reflexivity. Qed.
+Lemma clear_counter : clear_cache_counter = 0.
+Proof. reflexivity. Qed.
+
+(* whatever earlier (complete or abandoned) passes left in the buffers and the counter, a pass behaves like the
+   pass of a fresh object: __iter__ starts by clearing *)
+Lemma runC_after_fresh c buf ctr fs : runC_after c buf ctr fs = runC c fs.
+Proof.
+  unfold runC_after, runC. destruct (c_pooling c =? 0).
+  - unfold frun_machine_from, fstart_state, frun_machine. rewrite iter_clears, clear_counter. reflexivity.
+  - unfold run_machine_from, start_state, cleared, run_machine, init. rewrite iter_clears, clear_counter. reflexivity.
+Qed.
+
+Lemma emit_once_any_history c buf ctr fs outs fl :
+  runC_after c buf ctr fs = (outs, fl, true) -> Permutation (members (concat outs ++ fl)) (filter (wantedC c) fs).
+Proof. rewrite runC_after_fresh. apply emit_once. Qed.
+
+(* documentation: the same pass WITHOUT the clear at the start, on the buffers an abandoned pass left behind *)
+Definition run_dirty (c : cfg) (st : state mol) (fs : list frag) : list (list mol) * list mol * bool :=
+  let '(outs, st', ok) :=
+    run_from frag mol new_mol add_mol (matchC c) (hashC c) f_valid nochrom (yieldable_doc (c_cache c)) (fun i j => j - i)
+             (c_every c) (c_yield_invalid c) st fs in (outs, flush mol st', ok).
